@@ -2531,7 +2531,7 @@ pub fn run(out: &mut Out, seed: u64, thorough: bool, replay: Option<&str>) {
     }
     // ---- S: peers first met by a lookup that they answer WITH a value (C14): whoever answers one of the
     //         node's requests is in its routing table afterwards (small network: no capacity or IP limit)
-    for kind in 0..4 {
+    for kind in 0..6 {
         t0 += 10_000_000_000_000;
         let mut net = VNet::new(&mut rng, 6, true);
         // the two late peers are listed by the others but silent during the bootstrap
@@ -2558,7 +2558,10 @@ pub fn run(out: &mut Out, seed: u64, thorough: bool, replay: Option<&str>) {
             0 => format!("get_peers ih={}", hex(ih.as_bytes())),
             1 => format!("get_speers ih={}", hex(ih.as_bytes())),
             2 => format!("get_imm t={}", hex(imm_target(&v).as_bytes())),
-            _ => format!("get_mut k={} salt=none seq=none", hex(key_from_seed(9).verifying_key().as_bytes())),
+            3 => format!("get_mut k={} salt=none seq=none", hex(key_from_seed(9).verifying_key().as_bytes())),
+            // …and lookups of things nobody holds: the late peers answer "no values"
+            4 => format!("get_peers ih={}", hex(&rng.id20())),
+            _ => format!("get_imm t={}", hex(&rng.id20())),
         };
         d.api(call.clone());
         d.settle(20 * SEC, 10 * MS);
@@ -2569,7 +2572,7 @@ pub fn run(out: &mut Out, seed: u64, thorough: bool, replay: Option<&str>) {
                 let a = d.net.peers[i].addr;
                 let answered = d.s.answered.get(&a).map(|t| now - *t < 60 * SEC).unwrap_or(false);
                 if answered && !sn.routing_table.iter().any(|(_, x, _)| *x == a) {
-                    d.out.violation("C14", "answering-peer-not-in-table", format!("{a} answered `{}` with a value a moment ago and is not in the routing table ({} entries)", call.split(' ').next().unwrap_or(""), sn.routing_table.len()));
+                    d.out.violation("C14", "answering-peer-not-in-table", format!("{a} answered `{}` a moment ago ({}) and is not in the routing table ({} entries)", call.split(' ').next().unwrap_or(""), if kind < 4 { "with a value" } else { "with no values" }, sn.routing_table.len()));
                 }
             }
         }
